@@ -154,4 +154,112 @@ pub fn probe() {
     });
 }
 
-pub fn run(_args: &hxlib::util::Args, _sink: &mut hxlib::util::Sink, _rng: &mut hxlib::util::Rng) {}
+/// class predicate blob_null_first_row_allbinary on the LIVE rows of one data file, in order:
+/// a NULL or a zero-length value is followed by a non-empty blob (over-approximation of the stalls of the
+/// un-coalescing walk: a NULL strictly inside a coalesced read that starts at file offset 0 is harmless)
+pub fn in_class(live: &[Option<Vec<u8>>]) -> bool {
+    let mut seen_empty = false;
+    for b in live {
+        match b {
+            None => seen_empty = true,
+            Some(v) if v.is_empty() => seen_empty = true,
+            Some(_) => {
+                if seen_empty {
+                    return true;
+                }
+            }
+        }
+    }
+    false
+}
+
+/// Blob tables: append / delete, then compact_files; the blobs read back through take_blobs must be the written
+/// bytes for every live row (direct oracle; no model stream).
+pub fn run(args: &hxlib::util::Args, sink: &mut hxlib::util::Sink, rng: &mut hxlib::util::Rng) {
+    use serde_json::json;
+    let rt = tokio::runtime::Builder::new_multi_thread().worker_threads(2).enable_all().build().unwrap();
+    let n_tables = args.vol(6, 60);
+    rt.block_on(async {
+        for _ in 0..n_tables {
+            let pat: Vec<u8> = match rng.below(5) {
+                0 => vec![2],
+                1 => vec![2, 2, 2, 0],
+                2 => vec![0, 2, 2, 2],
+                3 => (0..rng.range(2, 5)).map(|_| *rng.pick(&[0u8, 1, 2, 2, 2])).collect(),
+                _ => vec![2, 2, 1, 2],
+            };
+            let dir = tempfile::tempdir().unwrap();
+            let uri = dir.path().join("b.lance").to_str().unwrap().to_string();
+            let mrpf = *rng.pick(&[3usize, 4, 5]);
+            let n = rng.range(5, 14) as usize;
+            let params = WriteParams { max_rows_per_file: mrpf, data_storage_version: Some(LanceFileVersion::V2_0), ..Default::default() };
+            let mut ds = Dataset::write(RecordBatchIterator::new(vec![Ok(mk_batch(&pat, 0, n))], schema()), &uri, Some(params)).await.unwrap();
+            let mut hist = vec![format!("create n={n} max_rows_per_file={mrpf} 2.0 (v:int64, b:large_binary blob), null pattern {pat:?} (0 NULL, 1 empty, 2 bytes; row v uses pattern[v % len])")];
+            if rng.chance(1, 2) {
+                let m = rng.range(2, 4);
+                let p = format!("v % {} = {}", m, rng.below(m));
+                ds.delete(&p).await.unwrap();
+                hist.push(format!("delete {p}"));
+            }
+            // live rows per fragment before compaction (v is stored in the same files)
+            let mut sc = ds.scan();
+            sc.project(&["v"]).unwrap();
+            sc.with_row_address().scan_in_order(true);
+            let bs: Vec<RecordBatch> = sc.try_into_stream().await.unwrap().try_collect().await.unwrap();
+            let mut per_frag: std::collections::BTreeMap<u64, Vec<i64>> = Default::default();
+            for b in bs {
+                let v = b.column_by_name("v").unwrap().as_any().downcast_ref::<Int64Array>().unwrap().clone();
+                let a = b.column_by_name("_rowaddr").unwrap().as_any().downcast_ref::<UInt64Array>().unwrap().clone();
+                for i in 0..b.num_rows() {
+                    per_frag.entry(a.value(i) >> 32).or_default().push(v.value(i));
+                }
+            }
+            let class = per_frag.values().any(|vs| in_class(&vs.iter().map(|v| blob_bytes(&pat, *v)).collect::<Vec<_>>()));
+            sink.count(if class { "blob:table-in-class" } else { "blob:table-outside-class" });
+            hist.push("compact_files target_rows_per_fragment=100".into());
+            let d3 = ds.clone();
+            let r = tokio::spawn(async move {
+                let mut d = d3;
+                compact_files(&mut d, CompactionOptions { target_rows_per_fragment: 100, ..Default::default() }, None).await.map(|_| d)
+            })
+            .await;
+            let case = json!({"history": hist});
+            let known = if class { Some("blob_null_first_row_allbinary") } else { None };
+            match r {
+                Ok(Ok(d)) => {
+                    let mut sc = d.scan();
+                    sc.project(&["v"]).unwrap();
+                    sc.with_row_address().scan_in_order(true);
+                    let bs: Vec<RecordBatch> = sc.try_into_stream().await.unwrap().try_collect().await.unwrap();
+                    let mut vs = vec![];
+                    let mut addrs = vec![];
+                    for b in bs {
+                        let v = b.column_by_name("v").unwrap().as_any().downcast_ref::<Int64Array>().unwrap().clone();
+                        let a = b.column_by_name("_rowaddr").unwrap().as_any().downcast_ref::<UInt64Array>().unwrap().clone();
+                        for i in 0..b.num_rows() {
+                            vs.push(v.value(i));
+                            addrs.push(a.value(i));
+                        }
+                    }
+                    let d4 = d.clone();
+                    let a2 = addrs.clone();
+                    match tokio::spawn(async move { take_all(&d4, &a2).await }).await {
+                        Ok(Ok(t)) => {
+                            let lost: Vec<i64> = vs.iter().zip(t.iter()).filter(|(v, b)| **b != blob_bytes(&pat, **v).unwrap_or_default()).map(|(v, _)| *v).collect();
+                            if lost.is_empty() {
+                                sink.oracle_ok();
+                            } else {
+                                sink.oracle_fail(known, &format!("after compact_files the blobs of rows v={lost:?} are not the bytes that were written (take_blobs)"), case);
+                            }
+                        }
+                        Ok(Err(e)) => sink.oracle_fail(known, &format!("take_blobs after compact_files failed: {e}"), case),
+                        Err(e) => sink.oracle_fail(known, &format!("take_blobs after compact_files panicked: {e}"), case),
+                    }
+                }
+                Ok(Err(e)) => sink.oracle_fail(known, &format!("compact_files on a blob table failed: {e}"), case),
+                Err(e) => sink.oracle_fail(known, &format!("compact_files on a blob table panicked: {e}"), case),
+            }
+        }
+    });
+    sink.notes.push(format!("blob: {n_tables} tables (2.0) with a blob column, NULL / empty / byte values, deletes, compact_files; take_blobs against the written bytes (oracle only)"));
+}
